@@ -172,6 +172,8 @@ void run_exec(const Execution &ex) {
     else if (ty == "float") run_num<float, NearEq<float>, true>(ex);
     else if (ty == "double") run_num<double, NearEq<double>, true>(ex);
     else if (ty == "fcoarse") run_num<float, CoarseEq<float>, true>(ex);
+    else if (ty == "fexact") run_num<float, std::equal_to<float>, true>(ex);     // floating point with the DEFAULT equality
+    else if (ty == "dexact") run_num<double, std::equal_to<double>, true>(ex);
     else run_str(ex);
 }
 
